@@ -585,6 +585,7 @@ def focuses(quick):
         Focus("container-2attrs", body=("Enum",), style=("Unit",), nv=(1, 1), cattrs=(2, 2), items=(0, 1), simple=True),
         Focus("from_word-shapes", body=("Struct",), style=("Named", "Unnamed", "Unit"), nf=(0, 2), cattrs=(1, 1), items=(1, 1), simple=True),
         Focus("field-2items", body=("Struct",), style=("Named",), nf=(1, 1), fattrs=(1, 1), items=(0, 2), simple=True),
+        Focus("tuple-field-2items", body=("Struct",), style=("Unnamed",), nf=(1, 1), fattrs=(1, 1), items=(0, 2), simple=True),
         Focus("field-2attrs", body=("Struct",), style=("Named",), nf=(1, 1), fattrs=(2, 2), items=(0, 1), simple=True),
         Focus("two-fields", body=("Struct",), style=("Named",), nf=(2, 2), fattrs=(0, 1), items=(0, 1), simple=True),
         Focus("variant-2items", body=("Enum",), style=("Unit", "Unnamed", "Named"), nf=(0, 1), nv=(1, 1), vattrs=(1, 1), items=(0, 2), simple=True),
@@ -597,7 +598,6 @@ def focuses(quick):
         fs += [
             Focus("three-variants", body=("Enum",), style=("Unit",), nv=(3, 3), vattrs=(0, 1), items=(0, 1), simple=True),
             Focus("variant-2attrs", body=("Enum",), style=("Unit", "Unnamed", "Named"), nf=(0, 1), nv=(1, 1), vattrs=(2, 2), items=(0, 1), simple=True),
-            Focus("tuple-field-2items", body=("Struct",), style=("Unnamed",), nf=(1, 1), fattrs=(1, 1), items=(0, 2), simple=True),
         ]
     return fs
 
